@@ -31,6 +31,7 @@ type c12Case struct {
 	// Declared decoded length: nil = correct
 	Declared *string `json:"declared,omitempty"`
 	Prior    bool    `json:"prior,omitempty"` // the key already holds an object
+	HexUpper bool    `json:"hexUpper,omitempty"` // chunk sizes in upper-case hexadecimal digits
 }
 
 var c12Prior = []byte("object stored before the streaming upload")
@@ -104,7 +105,7 @@ func c12Check(cs c12Case) (ds []disc) {
 			panic("harness: " + r.String())
 		}
 	}
-	stream := oracle.ChunkedEncode(payload, cs.Chunks)
+	stream := oracle.ChunkedEncodeHex(payload, cs.Chunks, cs.HexUpper)
 	stream, malformed := c12Mutate(stream, payload, cs.Mut, cs.MutK)
 	if cs.Mut == "flip" || cs.Mut == "truncate" {
 		// what the damaged stream still says, by an independent positional decoder
@@ -300,6 +301,17 @@ func c12Run(t *testing.T, c *evid.Collector) {
 				}
 			}
 		}
+		// chunk sizes whose hexadecimal form has letters, written in either case
+		for _, ch := range [][]int{{0xab, 0x1c0, 0xf}, {0xabcdef % 70000, 0xfade}, {10, 0xbeef, 0xa}} {
+			for _, up := range []bool{false, true} {
+				i++
+				if i%evid.Shards() != evid.Shard() {
+					continue
+				}
+				cs := c12Case{Backend: cfg.K, StreamBuf: cfg.Buf, Payload: bodySpec{N: 70000, Seed: 10}, Chunks: ch, Frag: s3x.Frag{Mode: "n", N: 700}, Prior: i%2 == 0, HexUpper: up}
+				record(cs, c12Check(cs), "grid-hex-case")
+			}
+		}
 		// chunk sizes that need six and seven hex digits (the documented example has five)
 		for _, ch := range [][]int{{1 << 20}, {3, 1<<20 + 1, 70000}, {1 << 24}} {
 			for _, fr := range []s3x.Frag{{Mode: "whole"}, {Mode: "n", N: 33000}} {
@@ -357,7 +369,7 @@ func c12Run(t *testing.T, c *evid.Collector) {
 	// ---- random
 	rapidRun(t, "random", evid.Scale(1200, 25000), func(rt *rapid.T) {
 		cfg := rapid.SampledFrom(cfgs).Draw(rt, "config")
-		cs := c12Case{Backend: cfg.K, StreamBuf: cfg.Buf, Prior: rapid.Bool().Draw(rt, "prior")}
+		cs := c12Case{Backend: cfg.K, StreamBuf: cfg.Buf, Prior: rapid.Bool().Draw(rt, "prior"), HexUpper: rapid.IntRange(0, 3).Draw(rt, "hexupper") == 0}
 		switch rapid.IntRange(0, 4).Draw(rt, "psize") {
 		case 0:
 			cs.Payload = bodySpec{Lit: rapid.SliceOfN(rapid.Byte(), 0, 40).Draw(rt, "lit")}
